@@ -18,7 +18,32 @@ theorem canPost_cases (st : RState) (h : canPost st = true) :
   cases st <;> simp [canPost] at h ⊢
 
 abbrev O2 (s : State) (fresh : List Nat) (ever : List Nat) (n : Nat) (l : List Nat) (p : Nat × Nat) : Prop :=
-  p.1 ∈ ever ∧ p.1 ≠ p.2 ∧ p.2 ∉ fresh ∧ p.2 ≤ n ∧ before p.1 p.2 l = true
+  p.1 ∈ ever ∧ p.1 ≠ p.2 ∧ p.2 ∉ fresh ∧ p.2 ≤ n ∧ before p.1 p.2 l = true ∧ isStop s p.2 = true
+
+theorem isStop_produce (s : State) (k : Kind) (i : Nat) (h : i ≤ s.kinds.length) (t : State)
+    (ht : t.kinds = s.kinds ++ [k]) : isStop t i = isStop s i := by
+  unfold isStop kindOf
+  rw [ht]
+  by_cases h0 : i = 0
+  · simp [h0]
+  · simp only [h0, if_false]
+    rw [List.getElem?_append_left (by omega)]
+
+/-- a non-stop message entering the buffer keeps "no posted stop in the buffer" -/
+theorem o5_add (s : State) (i : Nat) (hns : isStop s i = false)
+    (o2 : ∀ p ∈ s.owed, O2 s s.fresh s.everBuf s.kinds.length (line s) p)
+    (o4 : s.batch ≠ [] → ∀ p ∈ s.owed, p.2 ∉ s.buffer) :
+    s.batch ≠ [] → ∀ p ∈ s.owed ++ owedFor s i, p.2 ∉ s.buffer ++ [i] := by
+  intro hb p hp
+  rcases List.mem_append.mp hp with hp | hp
+  · simp only [List.mem_append, List.mem_singleton, not_or]
+    refine ⟨o4 hb p hp, ?_⟩
+    intro e
+    have := (o2 p hp).2.2.2.2.2
+    rw [e, hns] at this; cases this
+  · have := owedFor_isStop s i p hp
+    rw [hns] at this; cases this
+
 
 /-- adding a freshly posted message `i` at the end of the line -/
 theorem ord_enqueue_fresh (s : State) (i : Nat) (hc : Conserved s) (hf : i ∈ s.fresh)
@@ -33,13 +58,14 @@ theorem ord_enqueue_fresh (s : State) (i : Nat) (hc : Conserved s) (hf : i ∈ s
   rcases List.mem_append.mp hp with hp | hp
   · obtain ⟨a, b, c, d, e'⟩ := o2 p hp
     exact ⟨List.mem_append_left _ a, b, fun hm => c (List.mem_of_mem_erase hm), d,
-      before_append_right _ _ _ _ e'⟩
+      before_append_right _ _ _ _ e'.1, e'.2⟩
   · obtain ⟨h2, h1, hnd, hne⟩ := owedFor_mem s i p hp
-    refine ⟨List.mem_append_left _ h1, by rw [h2]; exact hne, ?_, by rw [h2]; exact hfr.2.2.2.2.2.2, ?_⟩
+    have hst := owedFor_isStop s i p hp
+    refine ⟨List.mem_append_left _ h1, by rw [h2]; exact hne, ?_, by rw [h2]; exact hfr.2.2.2.2.2.2, ?_, by rw [h2]; exact hst⟩
     · rw [h2]; exact not_mem_erase_of_count_one _ _ hfr.1
     · rw [h2]; exact before_of_mem _ _ _ _ (o1 p.1 h1) hiq
 
-theorem ordWF_step (s s' : State) (e : Ev) (h : next s e = some s') (hcalm : calmStep s e = true)
+theorem ordWF_step (s s' : State) (e : Ev) (h : next s e = some s') (hcalm : calmOrder s e = true)
     (hc : Conserved s) (hi : Idle s) (ho : OrdWF s) : OrdWF s' := by
   obtain ⟨o1, o2, o3, o4⟩ := ho
   cases e with
@@ -49,9 +75,9 @@ theorem ordWF_step (s s' : State) (e : Ev) (h : next s e = some s') (hcalm : cal
       cases h
       refine ⟨o1, ?_, o3, o4⟩
       intro p hp
-      obtain ⟨a, b, c, d, e'⟩ := o2 p hp
+      obtain ⟨a, b, c, d, e', f⟩ := o2 p hp
       have d' : p.2 ≤ s.kinds.length := d
-      refine ⟨a, b, ?_, ?_, e'⟩
+      refine ⟨a, b, ?_, ?_, e', ?_⟩
       · simp only [List.mem_append, List.mem_singleton, not_or]
         refine ⟨c, ?_⟩
         intro e2
@@ -59,6 +85,7 @@ theorem ordWF_step (s s' : State) (e : Ev) (h : next s e = some s') (hcalm : cal
         exact Nat.not_succ_le_self _ d'
       · simp only [List.length_append, List.length_singleton]
         exact Nat.le_succ_of_le d'
+      · rw [isStop_produce s k p.2 d' _ rfl]; exact f
     · cases h
   | send i q =>
     simp only [next] at h; split at h <;> cases h
@@ -67,7 +94,7 @@ theorem ordWF_step (s s' : State) (e : Ev) (h : next s e = some s') (hcalm : cal
     have hq : s.delivered ++ ((s.inflight ++ [i]) ++ s.batch ++ s.buffer)
         = (s.delivered ++ s.inflight) ++ i :: (s.batch ++ s.buffer) := by simp
     have hl : line s = (s.delivered ++ s.inflight) ++ (s.batch ++ s.buffer) := by simp [line, queue]
-    refine ⟨?_, ?_, o3, o4⟩
+    refine ⟨?_, ?_, o3, ?_⟩
     · intro d hd
       have h1 := o1 d hd
       show d ∈ s.delivered ++ ((s.inflight ++ [i]) ++ s.batch ++ s.buffer)
@@ -81,8 +108,8 @@ theorem ordWF_step (s s' : State) (e : Ev) (h : next s e = some s') (hcalm : cal
         (s.delivered ++ ((s.inflight ++ [i]) ++ s.batch ++ s.buffer)) p
       rw [hq]
       rcases List.mem_append.mp hp with hp | hp
-      · obtain ⟨a, b, c, d, e'⟩ := o2 p hp
-        refine ⟨a, b, fun hm => c (List.mem_of_mem_erase hm), d, ?_⟩
+      · obtain ⟨a, b, c, d, e', f⟩ := o2 p hp
+        refine ⟨a, b, fun hm => c (List.mem_of_mem_erase hm), d, ?_, f⟩
         apply before_insert
         · rw [← hl]; exact e'
         · intro e2; apply c; rw [← e2]; exact hg.1
@@ -90,13 +117,13 @@ theorem ordWF_step (s s' : State) (e : Ev) (h : next s e = some s') (hcalm : cal
         have hstop := owedFor_isStop s i p hp
         have hst : s.st ≠ .catchingUp := by
           intro e2
-          simp [calmStep, e2, hstop] at hcalm
+          simp [calmOrder, e2, hstop] at hcalm
         have hidle : s.buffer = [] ∧ s.batch = [] := by
           rcases canPost_cases s.st hg.2.1 with e2 | e2 | e2
           · exact hi (Or.inr (Or.inl e2))
           · exact hi (Or.inl e2)
           · exact absurd e2 hst
-        refine ⟨h1, by rw [h2]; exact hne, ?_, by rw [h2]; exact hfr.2.2.2.2.2.2, ?_⟩
+        refine ⟨h1, by rw [h2]; exact hne, ?_, by rw [h2]; exact hfr.2.2.2.2.2.2, ?_, by rw [h2]; exact hstop⟩
         · rw [h2]; exact not_mem_erase_of_count_one _ _ hfr.1
         · rw [h2]
           have hin := o1 p.1 h1
@@ -104,9 +131,22 @@ theorem ordWF_step (s s' : State) (e : Ev) (h : next s e = some s') (hcalm : cal
           simp only [List.append_nil] at hin
           have : i ∉ s.delivered ++ s.inflight := by
             simp only [List.mem_append, not_or]; exact ⟨hfr.2.2.2.2.1, hfr.2.1⟩
-          have := before_of_mem p.1 i (s.delivered ++ s.inflight) (i :: (s.batch ++ s.buffer)) hin this
-          exact this
+          exact before_of_mem p.1 i (s.delivered ++ s.inflight) (i :: (s.batch ++ s.buffer)) hin this
+    · intro hb p hp
+      rcases List.mem_append.mp hp with hp | hp
+      · exact o4 hb p hp
+      · rw [(owedFor_mem s i p hp).1]; exact hfr.2.2.2.1
   | buf i q =>
+    have hns : s.batch ≠ [] → isStop s i = false := by
+      intro hb
+      cases hst : isStop s i with
+      | false => rfl
+      | true =>
+        have : s.batch.isEmpty = false := by
+          cases hbb : s.batch with
+          | nil => exact absurd hbb hb
+          | cons _ _ => rfl
+        simp [calmOrder, hst, this] at hcalm
     simp only [next] at h
     split at h
     · cases h
@@ -114,7 +154,7 @@ theorem ordWF_step (s s' : State) (e : Ev) (h : next s e = some s') (hcalm : cal
       have key := ord_enqueue_fresh s i hc hg.1 o1 o2
       have hl : s.delivered ++ (s.inflight ++ s.batch ++ (s.buffer ++ [i])) = line s ++ [i] := by
         simp [line, queue]
-      refine ⟨?_, ?_, o3, o4⟩
+      refine ⟨?_, ?_, o3, fun hb => o5_add s i (hns hb) o2 o4 hb⟩
       · intro d hd
         show d ∈ s.delivered ++ (s.inflight ++ s.batch ++ (s.buffer ++ [i]))
         rw [hl]
@@ -127,10 +167,11 @@ theorem ordWF_step (s s' : State) (e : Ev) (h : next s e = some s') (hcalm : cal
         rw [hl]; exact key p hp
     · have tail : ∀ (s2 : State), s2.delivered = s.delivered → s2.inflight = s.inflight → s2.batch = s.batch →
           s2.buffer = s.buffer ++ [i] → s2.everBuf = s.everBuf ++ [i] → s2.owed = s.owed → s2.fresh = s.fresh →
-          s2.kinds = s.kinds → s2.orderViol = s.orderViol → s2.stuck = s.stuck → OrdWF s2 := by
-        intro s2 e1 e2 e3 e4 e5 e6 e7 e8 e9 e10
+          s2.kinds = s.kinds → s2.orderViol = s.orderViol → OrdWF s2 := by
+        intro s2 e1 e2 e3 e4 e5 e6 e7 e8 e9
         have hl : line s2 = line s ++ [i] := by simp [line, queue, e1, e2, e3, e4]
-        refine ⟨?_, ?_, by rw [e9]; exact o3, by rw [e10]; exact o4⟩
+        have hst : ∀ j, isStop s2 j = isStop s j := by intro j; unfold isStop kindOf; rw [e8]
+        refine ⟨?_, ?_, by rw [e9]; exact o3, ?_⟩
         · intro d hd
           rw [hl]; rw [e5] at hd
           rcases List.mem_append.mp hd with hd | hd
@@ -138,22 +179,36 @@ theorem ordWF_step (s s' : State) (e : Ev) (h : next s e = some s') (hcalm : cal
           · exact List.mem_append_right _ hd
         · intro p hp
           rw [e6] at hp
-          obtain ⟨a, b, c, d, e'⟩ := o2 p hp
-          rw [hl, e5, e7, e8]
-          exact ⟨List.mem_append_left _ a, b, c, d, before_append_right _ _ _ _ e'⟩
+          obtain ⟨a, b, c, d, e', f⟩ := o2 p hp
+          rw [hl, e5, e7, e8, hst]
+          exact ⟨List.mem_append_left _ a, b, c, d, before_append_right _ _ _ _ e', f⟩
+        · rw [e3, e6, e4]
+          intro hb p hp
+          have := o5_add s i (hns hb) o2 o4 hb p (List.mem_append_left _ hp)
+          exact this
       split at h
-      · cases h; exact tail _ rfl rfl rfl rfl rfl rfl rfl rfl rfl rfl
+      · cases h; exact tail _ rfl rfl rfl rfl rfl rfl rfl rfl rfl
       · split at h
-        · cases h; exact tail _ rfl rfl rfl rfl rfl rfl rfl rfl rfl rfl
+        · cases h; exact tail _ rfl rfl rfl rfl rfl rfl rfl rfl rfl
         · cases h
   | bufTask i q =>
+    have hns : s.batch ≠ [] → isStop s i = false := by
+      intro hb
+      cases hst : isStop s i with
+      | false => rfl
+      | true =>
+        have : s.batch.isEmpty = false := by
+          cases hbb : s.batch with
+          | nil => exact absurd hbb hb
+          | cons _ _ => rfl
+        simp [calmOrder, hst, this] at hcalm
     simp only [next] at h
     split at h <;> cases h
     rename_i hg
     have key := ord_enqueue_fresh s i hc hg.1 o1 o2
     have hl : s.delivered ++ (s.inflight ++ s.batch ++ (s.buffer ++ [i])) = line s ++ [i] := by
       simp [line, queue]
-    refine ⟨?_, ?_, o3, o4⟩
+    refine ⟨?_, ?_, o3, fun hb => o5_add s i (hns hb) o2 o4 hb⟩
     · intro d hd
       show d ∈ s.delivered ++ (s.inflight ++ s.batch ++ (s.buffer ++ [i]))
       rw [hl]
@@ -191,7 +246,7 @@ theorem ordWF_step (s s' : State) (e : Ev) (h : next s e = some s') (hcalm : cal
         unfold violates
         rw [List.any_eq_false]
         intro p hp hv
-        obtain ⟨a, b, c, d, e'⟩ := o2 p hp
+        obtain ⟨a, b, c, d, e', _⟩ := o2 p hp
         simp only [Bool.and_eq_true, beq_iff_eq, Bool.not_eq_true'] at hv
         have hnd : p.1 ∉ s.delivered := by
           intro hm
@@ -210,7 +265,7 @@ theorem ordWF_step (s s' : State) (e : Ev) (h : next s e = some s') (hcalm : cal
       have hl2 : line s = s.delivered ++ hd :: (rest ++ s.batch ++ s.buffer) := by simp [line, queue, heq]
       have hne : hd ∉ s.everBuf := by
         intro hm
-        simp [calmStep] at hcalm
+        simp [calmOrder] at hcalm
         exact hcalm hm
       refine ⟨?_, ?_, o3, o4⟩
       · intro d hdm
@@ -223,8 +278,8 @@ theorem ordWF_step (s s' : State) (e : Ev) (h : next s e = some s') (hcalm : cal
         · subst h1; exact absurd hdm hne
         · exact Or.inr h1
       · intro p hp
-        obtain ⟨a, b, c, d, e'⟩ := o2 p hp
-        refine ⟨a, b, c, d, ?_⟩
+        obtain ⟨a, b, c, d, e', f⟩ := o2 p hp
+        refine ⟨a, b, c, d, ?_, f⟩
         show before p.1 p.2 (s.delivered ++ (rest ++ s.batch ++ s.buffer)) = true
         rw [hl2] at e'
         exact before_remove_mid _ _ _ _ _ e' (fun e2 => hne (e2 ▸ a))
@@ -252,8 +307,8 @@ theorem ordWF_step (s s' : State) (e : Ev) (h : next s e = some s') (hcalm : cal
           rw [hq]
           exact (List.mem_erase_of_ne (fun (e2 : d = i) => hne (e2 ▸ hdm))).mpr (o1 d hdm)
         · intro p hp
-          obtain ⟨a, b, c, d, e'⟩ := o2 p hp
-          refine ⟨a, b, c, d, ?_⟩
+          obtain ⟨a, b, c, d, e', f⟩ := o2 p hp
+          refine ⟨a, b, c, d, ?_, f⟩
           show before p.1 p.2 (s.delivered ++ (s.inflight.erase i ++ s.batch ++ s.buffer)) = true
           rw [hq]
           exact before_erase _ _ _ _ e' (fun e2 => hne (e2 ▸ a))
@@ -267,7 +322,7 @@ theorem ordWF_step (s s' : State) (e : Ev) (h : next s e = some s') (hcalm : cal
     simp only [next] at h; split at h <;> cases h
     rename_i hg
     have hq : s.delivered ++ (s.inflight ++ s.buffer ++ []) = line s := by simp [line, queue, hg.2.2]
-    refine ⟨?_, ?_, o3, o4⟩
+    refine ⟨?_, ?_, o3, fun _ p _ => List.not_mem_nil⟩
     · intro d hdm
       show d ∈ s.delivered ++ (s.inflight ++ s.buffer ++ []); rw [hq]; exact o1 d hdm
     · intro p hp
@@ -275,10 +330,32 @@ theorem ordWF_step (s s' : State) (e : Ev) (h : next s e = some s') (hcalm : cal
       rw [hq]; exact o2 p hp
   | postBatch sent qs =>
     cases sent
-    · simp [calmStep] at hcalm
+    · simp only [next] at h; split at h <;> cases h
+      rename_i hg
+      -- the batch goes back behind whatever was buffered meanwhile; no posted stop is among that
+      have hl : line s = (s.delivered ++ s.inflight) ++ (s.batch ++ s.buffer) := by simp [line, queue]
+      have hq : s.delivered ++ (s.inflight ++ [] ++ (s.buffer ++ s.batch))
+          = (s.delivered ++ s.inflight) ++ (s.buffer ++ s.batch) := by simp
+      refine ⟨?_, ?_, o3, fun hb => absurd rfl hb⟩
+      · intro d hdm
+        have h1 := o1 d hdm
+        show d ∈ s.delivered ++ (s.inflight ++ [] ++ (s.buffer ++ s.batch))
+        rw [hq]; rw [hl] at h1
+        simp only [List.mem_append] at h1 ⊢
+        rcases h1 with h1 | h1 | h1
+        · exact Or.inl h1
+        · exact Or.inr (Or.inr h1)
+        · exact Or.inr (Or.inl h1)
+      · intro p hp
+        obtain ⟨a, b, c, d, e', f⟩ := o2 p hp
+        refine ⟨a, b, c, d, ?_, f⟩
+        show before p.1 p.2 (s.delivered ++ (s.inflight ++ [] ++ (s.buffer ++ s.batch))) = true
+        rw [hq]
+        rw [hl] at e'
+        exact before_swap _ _ _ _ _ e' (o4 hg.1 p hp)
     · simp only [next] at h; split at h <;> cases h
       have hq : s.delivered ++ ((s.inflight ++ s.batch) ++ [] ++ s.buffer) = line s := by simp [line, queue]
-      refine ⟨?_, ?_, o3, o4⟩
+      refine ⟨?_, ?_, o3, fun hb => absurd rfl hb⟩
       · intro d hdm
         show d ∈ s.delivered ++ ((s.inflight ++ s.batch) ++ [] ++ s.buffer); rw [hq]; exact o1 d hdm
       · intro p hp
@@ -293,6 +370,7 @@ theorem ordWF_step (s s' : State) (e : Ev) (h : next s e = some s') (hcalm : cal
   | taskClear self =>
     cases self
     · simp only [next] at h; split at h <;> cases h <;> exact ⟨o1, o2, o3, o4⟩
-    · simp [calmStep] at hcalm
+    · simp only [next] at h; split at h <;> cases h
+      refine ⟨o1, o2, o3, o4⟩
 
 end OPM.Runner
